@@ -40,3 +40,15 @@ CHECKS["C05"] = dict(
     technique="Verus contracts + loop invariant on extracted patch/validate text; ghost sink for the writer",
     design_ref="DESIGN.md §3 C05",
 )
+CHECKS["C01"] = dict(
+    text="Unbounded Verus proof on the extracted loops of CopiaSync::delta and AsyncCopiaSync::delta (async erased) and both patch engines: size/checksum/length-sum postconditions, and — under the explicit hypothesis that BLAKE3 does not collide — every copy inside the basis and out(ops, basis) == source; a lemma composes delta's postcondition with patch's success and output clauses. Signature generation and table lookups are assumed contracts validated by twins.",
+    note="Trusted: Verus+Z3, extractor (R2/R4/R7), I/O + blake3 contracts, assumed+validated contracts for Signature::generate and SignatureTable lookups, collision_free() as hypothesis, io_ok() for success clauses. CLI chain and sync_files are twin-validated only.",
+    technique="Verus loop invariants on extracted delta/patch text + composition lemma; twin validation for assumed repo contracts",
+    design_ref="DESIGN.md §3 C01",
+)
+CHECKS["C16"] = dict(
+    text="Unbounded Verus proof that the literal byte count of the delta computed by either engine EQUALS that of the textbook greedy scan (spec function g_lit), via the loop invariant lit(ops) + g_lit(S,basis,bs,pos) == g_lit(S,basis,bs,0); relies on the C17 checksum contracts discharged in the same run.",
+    note="Trusted as C01. Conditional on no BLAKE3 collision (hypothesis in the postcondition).",
+    technique="Verus loop invariant relating the code's scan to a recursive greedy spec function",
+    design_ref="DESIGN.md §3 C16",
+)
